@@ -61,6 +61,40 @@ def main():
         exp = {k: num(k) for k in got}
         bad = {k: (got[k], exp[k]) for k in got if exp[k] is not None and got[k] != exp[k]}
         run.case('corpus: counts match the Betty statistics', xf, not bad, f'{bad}', {'file': xf})
+    # documents the library cannot represent must raise rather than yield another model: AFM documents made invalid by construction,
+    # FeatureIDE rules with an element outside the rule language
+    for k in range(20 if quick else 300):
+        d, text = emit_afm(rng)
+        how = k % 5
+        if how == 0:
+            bad = text.replace(';', ' [[;', 1)
+        elif how == 1:
+            bad = text.rstrip('\n') + '\nthis is not a constraint ;;\n'
+        elif how == 2:
+            bad = text.replace('%Relationships', '%Relationship', 1)
+        elif how == 3:
+            bad = text.replace(':', ': :', 1)
+        else:
+            bad = text.rstrip('\n') + '\n\u00a7\u00a7\n'
+        p = os.path.join(tmp, f'bad{k}.afm')
+        open(p, 'w', encoding='utf-8').write(bad)
+        try:
+            AFMReader(p).transform()
+            ok, why = False, 'a model was returned'
+        except Exception:  # noqa: BLE001
+            ok, why = True, ''
+        run.case('AFM: a document with a syntax error raises', f'bad{k}', ok, why, {'document': bad[:1200]})
+    for k, tag in enumerate(['atmost1', 'alt', 'xor', 'feature']):
+        text = ('<featureModel><struct><and mandatory="true" name="R"><feature name="A"/><feature name="B"/></and></struct>'
+                f'<constraints><rule><imp><var>A</var><{tag}><var>B</var></{tag}></imp></rule></constraints></featureModel>')
+        p = os.path.join(tmp, f'badrule{k}.xml')
+        open(p, 'w', encoding='utf-8').write(text)
+        try:
+            FeatureIDEReader(p).transform()
+            ok, why = False, 'a model was returned'
+        except Exception:  # noqa: BLE001
+            ok, why = True, ''
+        run.case('FeatureIDE: a rule element the library cannot represent raises', tag, ok, why, {'document': text})
     run.finish('independent emitters for FeatureIDE XML (attribute order, mandatory present/absent with either value, n-ary conj/disj, graphics / '
                'description elements, optional sections), FaMa XML (cardinality as written, attribute order, requires / excludes), Glencoe JSON '
                '(ids distinct from names, n-ary terms, key order) and AFM (spacing, parentheses); shipped FaMa corpus against the Betty '
